@@ -81,7 +81,7 @@ TrBegin ==
      ELSE /\ level' = level /\ cur' = Source(level) /\ dead' = TRUE /\ Bad("unknown level")
   /\ chain' = <<>> /\ steps' = <<>> /\ obs' = None /\ split' = None
   /\ prog' = Ev.prog /\ rawcur' = <<>> /\ l' = l + 1 /\ UNCHANGED seen
-  /\ wide' = IF Ev.prog = prog THEN wide ELSE {} /\ UNCHANGED need
+  /\ wide' = (IF Ev.prog = prog THEN wide ELSE {}) /\ UNCHANGED need
 
 Skip == /\ l <= Len(Trc) /\ dead /\ Trc[l].ev # "Begin"
         /\ l' = l + 1 /\ UNCHANGED <<vars, prog, seen, rawcur, dead, nbad, cov>>
